@@ -347,7 +347,7 @@ func newPipeEnv(fc fwdCfg, alias string) (*pipeEnv, error) {
 	if alias != "" {
 		names = append(names, alias)
 	}
-	names = append(names, "proxyb.test")
+	names = append(names, "proxyb.test", "other.test")
 	cert := ca.leaf(names, "")
 	pe.innerTL = &tls.Config{Certificates: []tls.Certificate{cert}}
 	f, err := startFwd(fc)
@@ -602,7 +602,7 @@ func (pe *pipeEnv) runCase(c *pipeCase) map[string]any {
 	if c.Req.Kind == "MITMGET" && final.Status == 200 {
 		// TLS with the proxy, then the inner request
 		_, mitmCA := harnessCAs()
-		if err := cl.startTLS(&tls.Config{RootCAs: mitmCA.pool, ServerName: strings.Trim(host, "[]")}); err != nil {
+		if err := cl.startTLS(tlsClientCfg(mitmCA, host)); err != nil {
 			obs.Err = err.Error()
 			fail("MITM handshake failed")
 			return res
@@ -793,4 +793,8 @@ func expectedPeer(c *pipeCase) string {
 		return "OT"
 	}
 	return "O"
+}
+
+func tlsClientCfg(ca *harnessCA, host string) *tls.Config {
+	return &tls.Config{RootCAs: ca.pool, ServerName: strings.Trim(host, "[]")}
 }
